@@ -8,6 +8,9 @@
           real merge results on all pairs/triples logged at the end of each run.
 4. TV   : CrdtTrace validates every step (refinement) and the laws on the real results;
           random longer runs (all six kinds) are validated the same way.
+   The runs rotate over four sets of replica ids (1..3; congruent modulo 2^16; beyond 2^32; at the
+   top of u64 - the trace carries their ranks) and over the eventual and the causal consistency
+   level (Crdt.tla: causal, nsets - register writes carry the writer's vector clock).
 """
 import json, os
 from lib import vlib
@@ -63,7 +66,7 @@ def run(tier):
     vlib.build_harness()
     thorough = tier == "thorough"
     # 1. design-level model checking
-    for cfg in (["MCCrdt", "MCCrdtKinds"]):
+    for cfg in (["MCCrdt", "MCCrdtKinds", "MCCrdtCausal"]):
         rep.add_mc(vlib.must_pass(vlib.tlc("MCCrdt", cfg, wd, workers=8, timeout=3000), cfg), cfg)
     r = vlib.must_violate(vlib.tlc("MCCrdt", "MCCrdtAsBuilt", wd, workers=2), "Commutative", "as-built stamp switch")
     rep.add_mc(r, "MCCrdtAsBuilt (expected violation: Commutative)")
